@@ -390,6 +390,14 @@ class RenderLocate(Bounded):
                     per = rng.integers(0, 2, size=dim).astype(bool)
                     shape = rng.integers([20, 14, 10][dim - 1], [60, 28, 16][dim - 1], size=dim)
                     lo = rng.choice([-7.3, 0.0, 2.5, 100.0], size=dim)
+                    # every fifth Cartesian configuration has a droplet centred EXACTLY at the coordinate origin: at the corner of a fully periodic
+                    # box that starts at 0, or at a cell corner in the middle of the box
+                    special = (t // 6) % 5
+                    if special == 0:
+                        per[:] = True
+                        lo = np.zeros(dim)
+                    elif special == 1:
+                        lo = -(shape // 2) * dx
                     grid = pde.CartesianGrid([(l, l + n * d) for l, n, d in zip(lo, shape, dx)], [int(n) for n in shape], periodic=[bool(p) for p in per])
                     size = shape * dx
                     h = float(dx.max())
@@ -405,6 +413,8 @@ class RenderLocate(Bounded):
                                           if size[a] - 2 * r - 2 * h > 0 else np.nan for a in range(dim)])
                             if np.any(np.isnan(c)):
                                 continue
+                            if special in (0, 1) and not drops:
+                                c = np.zeros(dim)
 
                             def pd(p, q):
                                 d = np.abs(p - q)
